@@ -119,8 +119,24 @@ def process(prop, m, checks):
     print(f"{prop}-{wave}{m}: confirmed={v.get('confirmed')} suite_ok={v.get('suite_ok')} demo(with)={v.get('demo_with_patch_exit')} demo(without)={v.get('demo_without_patch_exit')} detected_by={meta['detected_by']} exits={ {c: r['exit'] for c, r in dres.items()} }")
 
 
+def redetect(name, checks):
+    """Re-run detection for a filed seed after the checks were strengthened; the first result is kept in meta.json as
+    detection_before_strengthening."""
+    d = f"/verif/seeded/{name}"
+    meta = json.load(open(os.path.join(d, "meta.json")))
+    if "detection_before_strengthening" not in meta and not all(c in meta.get("detected_by", []) for c in [meta["property"]]):
+        meta["detection_before_strengthening"] = meta.get("detection", {})
+    dres = detect(d, checks, name.replace("-", "_"))
+    meta.setdefault("detection", {}).update(dres)
+    meta["detected_by"] = sorted(c for c, r in meta["detection"].items() if r["exit"] == 1)
+    json.dump(meta, open(os.path.join(d, "meta.json"), "w"), indent=1)
+    print(f"{name}: detected_by={meta['detected_by']} exits={ {c: r['exit'] for c, r in dres.items()} }")
+
+
 if __name__ == "__main__":
-    if sys.argv[1] == "process":
+    if sys.argv[1] == "redetect":
+        redetect(sys.argv[2], sys.argv[3:])
+    elif sys.argv[1] == "process":
         process(sys.argv[2], sys.argv[3], sys.argv[4:])
     elif sys.argv[1] == "verify":
         print(json.dumps(verify(sys.argv[2], sys.argv[3]), indent=1))
